@@ -73,6 +73,7 @@ int main(int argc, char **argv) {
         std::vector<uint8_t> c = slurp(argv[2]);
         FILE *o = fopen(argv[3], "wb");
         if (!o) return 2;
+        setvbuf(o, nullptr, _IONBF, 0);  // every record reaches the file at once: after an abort the file tells which scenario was running
         size_t i = 0, k = 0;
         while (i + 4 <= c.size()) {
             uint32_t n;
@@ -81,9 +82,10 @@ int main(int argc, char **argv) {
             if (i + n > c.size()) break;
             int nt = 0;
             uint64_t d = vh_digest(c.data() + i, n, &nt);
-            uint8_t b = (uint8_t)nt;
-            fwrite(&d, 8, 1, o);
-            fwrite(&b, 1, 1, o);
+            uint8_t rec[9];
+            memcpy(rec, &d, 8);
+            rec[8] = (uint8_t)nt;
+            fwrite(rec, 9, 1, o);
             i += n;
             k++;
         }
